@@ -227,13 +227,7 @@ func perSplitRule(c *Ctx, r *Rule) {
 	for _, cl := range callsIn(nf) {
 		if cl.Common().IsInvoke() && cl.Common().Method.Name() == "NotifyFlush" {
 			n++
-			ok := false
-			for _, cd := range condsFor(cl.Block()) {
-				cd = normCond(cd)
-				if b := asBinOp(cd.V, token.NEQ); b != nil && cd.Sense && isNilConst(b.Y) && strings.HasSuffix(pathOf(b.X), ".flushCoordinator") {
-					ok = true
-				}
-			}
+			ok := knownNonNil(factsAt(cl.Block()), func(v ssa.Value) bool { return strings.HasSuffix(pathOf(v), ".flushCoordinator") })
 			r.Check("notifyFlush:guarded", ok && strings.HasSuffix(pathOf(cl.Common().Value), ".flushCoordinator"), cl.Pos(), "NotifyFlush is sent to hfh.flushCoordinator when it is set")
 		}
 	}
